@@ -48,6 +48,10 @@ PROPS = {
         "lean_modules": ["C11"],
         "rule": "6 comparisons x all ordered (for eq/ne: all comparable, incl. bool, complex, string) element types x {TT, TS, ST} x {bool result, AsSameType, unsafe, bool reuse, same-type reuse} x operand layouts as C06, values with ties, NaN, extremes; refusals of unordered / mismatched types and shapes",
     },
+    "C12": {
+        "lean_modules": ["C12"],
+        "rule": "15 unary operations (neg inv square cube exp tanh log log2 log10 sqrt cbrt invsqrt abs sign clamp) and Dense.Apply x 16 element types (accepted and refused ones) x {safe, unsafe, reuse, incr, reuse aliasing the operand} x operand/destination layouts as C06/C07; value sets with 0, negatives, extremes, NaN/Inf; the model's term is evaluated with the same Go maths routine the kernel names and compared bit-exactly",
+    },
     "C13": {
         "lean_modules": ["C13"],
         "rule": "shapes of rank 0-4 with dims 1-4 (quick) / 1-5 (thorough); Shape.S and AP.T calculators vs the executed Slice / T on the same (valid and invalid) arguments; Reshape to every factorisation of the size (and to a wrong size) after slicing, transposing, cloning, materialising; the metadata invariant wf (one stride per axis, size = product of shape, distinct in-window addresses) is evaluated in every dump of every check",
